@@ -454,6 +454,17 @@ func (r *Rec) watch() {
 			if d, ok := r.caseDesc.Load().(func() interface{}); ok && d != nil {
 				c = d()
 			}
+			if where := hangSite(); where != "" {
+				// the goroutine that is stuck is executing harness code (a reference model or a
+				// generator), not the code under test: a defect of the harness, never a violation
+				r.writeReplay(check+"-harness-hang", c, "harness code did not finish: "+where)
+				fmt.Printf("HARNESS-ERROR property=%s check=%s a case did not finish within %v inside harness code: %s\n", r.Prop, check, r.budget, where)
+				r.mu.Lock()
+				r.t.Fail()
+				r.mu.Unlock()
+				r.Flush()
+				os.Exit(2)
+			}
 			path := r.writeReplay(check+"-hang", c, fmt.Sprintf("case did not finish within %v", r.budget))
 			fmt.Printf("VIOLATION property=%s replay=%s\n", r.Prop, path)
 			r.mu.Lock()
@@ -463,6 +474,44 @@ func (r *Rec) watch() {
 			os.Exit(1)
 		}
 	}
+}
+
+// hangSite inspects all goroutine stacks. It returns "" when a running goroutine of the check
+// is inside the code under test (innermost frames in github.com/vektah/gqlparser), otherwise
+// a short description of where the harness itself is stuck.
+func hangSite() string {
+	buf := make([]byte, 4<<20)
+	n := runtime.Stack(buf, true)
+	where := ""
+	for _, g := range strings.Split(string(buf[:n]), "\n\n") {
+		if !strings.Contains(g, "verif/harness/checks.") || strings.Contains(g, "kit.(*Rec).watch") {
+			continue
+		}
+		head := strings.SplitN(g, "\n", 2)
+		if len(head) < 2 || !(strings.Contains(head[0], "[running]") || strings.Contains(head[0], "[runnable]")) {
+			continue
+		}
+		lines := strings.Split(head[1], "\n")
+		inner := lines
+		if len(inner) > 16 {
+			inner = inner[:16]
+		}
+		for _, l := range inner {
+			if strings.HasPrefix(l, "github.com/vektah/gqlparser/v2") {
+				return ""
+			}
+		}
+		for _, l := range inner {
+			if strings.HasPrefix(l, "verif/harness/") {
+				where = l
+				break
+			}
+		}
+	}
+	if where == "" {
+		return "" // cannot tell: attribute to the case (conservative for detection)
+	}
+	return where
 }
 
 type Panic struct {
